@@ -95,6 +95,13 @@ Fixpoint run (s : sem) (ops : list op) : sem * list event :=
       (s2, e1 ++ e2)
   end.
 
+(* What Acquire would be if the decision to wait and the insertion into the
+   queue were two critical sections (the mutex released in between): the
+   second half alone.  Used only to show that the two halves must be one
+   atomic step (Proofs/Semaphore.v, enqueue_must_be_atomic_lemma). *)
+Definition enqueue_only (s : sem) (id : N) (n : Z) : sem :=
+  mkSem (s_max s) (s_cur s) (s_res s) (s_wait s ++ [(id, n)]).
+
 (* Read-only accessors of the Go type. *)
 Definition in_use (s : sem) : Z := s_max s - s_cur s + s_res s.
 Definition available (s : sem) : Z := s_cur s - s_res s.
